@@ -4,6 +4,7 @@ import (
 	"fmt"
 	"go/token"
 	"go/types"
+	"sort"
 	"strings"
 
 	"golang.org/x/tools/go/ssa"
@@ -14,9 +15,10 @@ import (
 )
 
 func C15(c *Ctx) {
-	c.R.Explanation = "Decides structural necessary conditions of 'reported changes suffice' for package sio: (R1) report and apply are paired — in RunMachine every path from the assignment of the live machine's state to a return also records that state in the change cache (and vice versa), SetMachine applies a given state to an existing machine as well as recording it, DeleteMachine both removes the machine and records the deletion, and one crew operation performs its updates before its deletions (a deletion flag is never cleared by a later update within the same report); (R2) every persisted field of Changed is propagated by GetChanged, a reported deletion also forgets the last-reported record used for duplicate suppression, the reference consumer applies every persisted field, and the boot path hands every persisted field of a stored machine to SetMachine. Equality of a rebuilt crew's behaviour is not decided."
+	c.R.Explanation = "Decides structural necessary conditions of 'reported changes suffice' for package sio: (R1) report and apply are paired — in RunMachine every path from the assignment of the live machine's state to a return also records that state in the change cache (and vice versa), SetMachine applies a given state to an existing machine as well as recording it, DeleteMachine both removes the machine and records the deletion, and one crew operation performs its updates before its deletions (a deletion flag is never cleared by a later update within the same report); (R2) every persisted field of Changed is propagated by GetChanged, a reported deletion also forgets the last-reported record used for duplicate suppression, the reference consumer applies every persisted field, and the boot path hands every persisted field of a stored machine to SetMachine. (R3) anywhere in package sio, an assignment of the State or SpecSource of a machine that can be a member of Crew.Machines is covered, under the facts holding at the assignment, by a record of the same field in the change cache in the same function (before it on every path, or after it on every path), except the initialisation of an absent (nil) field. Equality of a rebuilt crew's behaviour is not decided."
 	c.R.Rule("C15-R1", "E3", "report and apply are paired", 5)
 	c.R.Rule("C15-R2", "E6", "field exhaustiveness of the change report and its consumers", 6)
+	c.R.Rule("C15-R3", "E3", "who may change a live machine: every assignment of a crew machine's persisted fields anywhere in package sio is covered by a change record", 3)
 	runM := c.fn("sio", "Crew", "RunMachine")
 	setM := c.fn("sio", "Crew", "SetMachine")
 	delM := c.fn("sio", "Crew", "DeleteMachine")
@@ -158,6 +160,7 @@ func C15(c *Ctx) {
 	})
 	okOrder := setCall != nil && delCall != nil && flow.Reachable(setCall.Block(), delCall.Block(), nil) && !flow.Reachable(delCall.Block(), setCall.Block(), nil)
 	c.R.Check(okOrder, "C15-R1", "DoOp: updates are applied before deletions", c.P.Pos(doOp.Pos()), "no path from a deletion to an update within one operation", "within one crew operation a deletion can precede an update of the same machine: the deletion flag then hides the update from the report although the machine is live")
+	c15Writers(c, change)
 	// ---- R2 exhaustiveness
 	sioPkg := c.P.ByPath[prog.Abs("sio")]
 	chT, _ := sioPkg.Types.Scope().Lookup("Changed").Type().Underlying().(*types.Struct)
@@ -269,5 +272,133 @@ func C15(c *Ctx) {
 	}
 	if nboot == 0 {
 		c.R.Break("C15-R2: no boot path calling SetMachine with a stored machine found")
+	}
+}
+
+// c15Writers: C15-R3.
+func c15Writers(c *Ctx, change *ssa.Function) {
+	fns := c.P.FuncsIn("sio")
+	var all []*ssa.Function
+	seenFn := map[*ssa.Function]bool{}
+	for _, f := range fns {
+		for _, g := range ssau.WithAnon(f) {
+			if !seenFn[g] && g.Blocks != nil {
+				seenFn[g] = true
+				all = append(all, g)
+			}
+		}
+	}
+	sort.Slice(all, func(i, j int) bool { return fname(all[i]) < fname(all[j]) })
+	isCrewMachines := func(m ssa.Value) bool {
+		for _, d := range deepDefs(m, all) {
+			if _, is := ssau.LoadOfField(d, prog.Abs("sio"), "Crew", "Machines"); is {
+				return true
+			}
+		}
+		return false
+	}
+	// classify the machine whose field is assigned
+	type origin int
+	const (
+		fresh origin = iota
+		live
+		other
+	)
+	classify := func(base ssa.Value) (origin, string) {
+		res, why := fresh, "a machine allocated here"
+		for _, d := range deepDefs(base, all) {
+			switch x := d.(type) {
+			case *ssa.Alloc:
+			case *ssa.Extract:
+				switch t := x.Tuple.(type) {
+				case *ssa.Lookup:
+					if isCrewMachines(t.X) {
+						return live, "a member of Crew.Machines"
+					}
+					res, why = other, "a member of another map"
+				case *ssa.Next:
+					if rg, ok := t.Iter.(*ssa.Range); ok && isCrewMachines(rg.X) {
+						return live, "a member of Crew.Machines"
+					}
+					res, why = other, "a member of another map"
+				default:
+					return live, "a machine of unknown origin (" + d.String() + ")"
+				}
+			case *ssa.Lookup:
+				if isCrewMachines(x.X) {
+					return live, "a member of Crew.Machines"
+				}
+				res, why = other, "a member of another map"
+			case *ssa.Parameter:
+				return live, "a machine handed in by a caller outside the package"
+			default:
+				return live, "a machine of unknown origin (" + d.String() + ")"
+			}
+		}
+		return res, why
+	}
+	reportField := map[string]string{"State": "State", "SpecSource": "SpecSrc"}
+	counts := map[string]int{}
+	for _, f := range all {
+		ssau.Instrs(f, func(in ssa.Instruction) {
+			st, ok := in.(*ssa.Store)
+			if !ok {
+				return
+			}
+			for mf, rf := range reportField {
+				if !ssau.IsField(st.Addr, prog.Abs("crew"), "Machine", mf) {
+					continue
+				}
+				_, _, base, _ := ssau.FieldOf(st.Addr)
+				counts[fname(f)+mf]++
+				key := fmt.Sprintf("%s: assignment #%d of Machine.%s", fname(f), counts[fname(f)+mf], mf)
+				org, why := classify(base)
+				if org != live {
+					c.R.Discharge("C15-R3", key, c.pos(in), "not a live crew member: "+why)
+					continue
+				}
+				// initialisation of an absent field
+				absent := false
+				for _, fct := range flow.FactsAt(in.Block()) {
+					bo, isB := fct.Cond.(*ssa.BinOp)
+					if !isB || !((bo.Op == token.EQL && fct.True) || (bo.Op == token.NEQ && !fct.True)) {
+						continue
+					}
+					var v ssa.Value
+					switch {
+					case ssau.IsNilConst(bo.Y):
+						v = bo.X
+					case ssau.IsNilConst(bo.X):
+						v = bo.Y
+					}
+					if v == nil {
+						continue
+					}
+					if b2, is := ssau.LoadOfField(v, prog.Abs("crew"), "Machine", mf); is && b2 == base {
+						absent = true
+					}
+				}
+				if absent {
+					c.R.Discharge("C15-R3", key, c.pos(in), "initialises an absent (nil) "+mf+"; a store without it describes the same default")
+					continue
+				}
+				covered := false
+				ssau.Instrs(f, func(in2 ssa.Instruction) {
+					r, ok := in2.(*ssa.Store)
+					if !ok || !ssau.IsField(r.Addr, prog.Abs("sio"), "Changed", rf) {
+						return
+					}
+					_, _, rb, _ := ssau.FieldOf(r.Addr)
+					cl, isC := rb.(*ssa.Call)
+					if !isC || cl.Common().StaticCallee() != change {
+						return
+					}
+					if flow.CoveredBy(st.Block(), r.Block()) {
+						covered = true
+					}
+				})
+				c.R.Check(covered, "C15-R3", key, c.pos(in), "covered by a record of Changed."+rf+" in the same function", "the "+mf+" of "+why+" is assigned without the assignment being recorded in the change cache on that path: the store keeps the old "+mf)
+			}
+		})
 	}
 }
